@@ -272,7 +272,7 @@ fn run_response(f: &[T]) -> T {
                 summary(2, r)
             }
             (V2ResponseMessage::TxPoolFullTransactions(r), V2ResponseMessage::TxPoolFullTransactions(_)) => summary(3, r),
-            _ => vec![T::i(1), T::n(9), T::i(0), T::n(9)], // variant changed
+            _ => vec![T::i(1), T::i(9), T::i(0), T::i(9)], // variant changed
         },
     };
     T::l(vec![T::n(bytes.len() as u64), T::l(result)])
@@ -296,7 +296,7 @@ pub fn run(input: &T) -> T {
 fn cache_case(rng: &mut Rng, tier: &str) -> T {
     let capacity = *rng.pick(&[1u64, 2, 3, 5, 64, 64, 64]);
     let chain_len = rng.range(0, UNIVERSE as u64);
-    let db_mode = if rng.chance(1, 6) { 1 } else { 0 };
+    let db_mode: u64 = if rng.chance(1, 6) { 1 } else { 0 };
     let poison = rng.chance(1, 4);
     let len = rng.range(1, if tier == "thorough" { 16 } else { 8 });
     let ops: Vec<T> = (0..len)
@@ -371,7 +371,7 @@ pub fn gen(rng: &mut Rng, n: u64, tier: &str) -> Vec<T> {
                         .collect();
                     ops.push(T::l(vec![T::i(0), T::i(0), T::n(a), T::n(b)]));
                     ops.push(T::l(vec![T::i(0), T::i(0), T::n(a), T::n(b)]));
-                    cases.push(T::l(vec![T::i(0), T::n(64), T::n(chain_len), T::i(0), T::l(ops)]));
+                    cases.push(T::l(vec![T::i(0), T::i(64), T::n(chain_len), T::i(0), T::l(ops)]));
                 }
             }
         }
@@ -388,7 +388,7 @@ pub fn gen(rng: &mut Rng, n: u64, tier: &str) -> Vec<T> {
     for variant in 0..4u64 {
         for proto in 1..=2u64 {
             for code in 0..5u64 {
-                cases.push(T::l(vec![T::i(2), T::n(variant), T::i(0), T::i(0), T::n(code), T::n(proto), T::n(1024)]));
+                cases.push(T::l(vec![T::i(2), T::n(variant), T::i(0), T::i(0), T::n(code), T::n(proto), T::i(1024)]));
             }
             for items in 0..3u64 {
                 for max in [1u64, 2, 3, 1024 * 1024] {
